@@ -150,6 +150,18 @@ def recipe_leg(instance, maxcalls, nshards, inst, seed, sim=None, env_extra=None
     return cached(tree_hash() + json.dumps(params, sort_keys=True), go)
 
 
+def trace_leg(tag=""):
+    params = dict(kind="trace", tag=tag)
+
+    def go():
+        os.makedirs(os.path.join(BUILD, "run"), exist_ok=True)
+        out = os.path.join(BUILD, "run", f"trace_{tag}_{os.getpid()}.json")
+        t0 = time.time()
+        shards = run_workers([([PY, os.path.join(HERE, "trace_worker.py"), out], {"VERIF_TAG": f"_{tag}_{os.getpid()}"}, out)])
+        return dict(params=params, shards=shards, wall=time.time() - t0)
+    return cached(tree_hash() + json.dumps(params, sort_keys=True), go)
+
+
 def units_leg(inst, seed, env_extra=None, tag=""):
     params = dict(kind="units", inst=inst, seed=seed, env=env_extra, tag=tag)
 
@@ -202,6 +214,8 @@ def plan(prop, tier, seed):
         if prop in ("C03", "C04", "C10", "C11", "C17", "C19"):
             legs.append(lambda: lab_leg("LabCF", 2 if q else 3, 16, REALISTIC, seed))
             legs.append(lambda: lab_leg("LabCF", 2, 16, DECIMAL, seed, overrides=DEC_OVR, tag="dec"))
+        if prop in ("C01", "C02", "C04", "C07"):
+            legs.append(lambda: lab_leg("LabDUP", 2, 8 if q else 16, REALISTIC, seed))
         if prop in ("C01", "C02", "C03", "C04", "C07", "C10", "C11", "C17", "C19"):
             legs.append(lambda: lab_leg("LabPL", 1 if q else 2, 8 if q else 16, REALISTIC, seed))
             legs.append(lambda: lab_leg("LabPL", 2, 16, DECIMAL, seed, overrides=dict(DEC_OVR, Fracs="PL_FracsQuick", TUnits="QuickUnits"), tag="q2") if q
@@ -216,6 +230,7 @@ def plan(prop, tier, seed):
             legs.append(lambda: lab_leg("LabSOL", 1, 16, ("777.7", "31000"), seed, overrides=full, tag="fullodd"))
     if prop == "C16":
         legs.append(lambda: recipe_leg("RecipeLife", 5 if q else 6, 16, REALISTIC, seed))
+        legs.append(lambda: trace_leg())
     if prop in ("C08", "C09", "C15", "C16", "C17", "C04", "C03"):
         legs.append(lambda: recipe_leg("RecipeProg", 3 if q else 4, 16, REALISTIC, seed))
         if not q:
